@@ -1182,6 +1182,20 @@ class C31(WorldCheck):
             if bracket else None
         if kind == 'coloring' and not sim.final:
             return True
+
+        def all_totals():
+            # every total of the declared responses wrt the declared design variables, outside the logs
+            import contextlib
+            import io
+            try:
+                with contextlib.redirect_stdout(io.StringIO()):
+                    T = sim.p.compute_totals(return_format='flat_dict')
+                return {k: np.array(v, dtype=float) for k, v in T.items()}
+            except Exception:      # noqa
+                return None
+        dq = bracket and sim.clean and kind in ('check_partials', 'check_totals', 'coloring', 'list_outputs',
+                                                 'list_inputs', 'list_vars') and not sim.rt.faults
+        tot_before = all_totals() if dq else None
         res, raised, fired = sim.do(op)
         for f in sim.rt.fired[len(sim.rt.fired) - fired:]:
             faults.inc(f['kind'] + ':' + f['method'])
@@ -1211,6 +1225,25 @@ class C31(WorldCheck):
                 viol.append({'inv': 'I-31a-readonly', 'msg': f"[{sim.name}] {kind} ({ {k: v for k, v in op.items() if k != 'op'} }) "
                              f"changed the model's inputs/outputs", 'ctx': kind})
                 return False
+            if tot_before is not None:
+                # no hidden state either: the same derivative query before and after the read-only call
+                tot_after = all_totals()
+                if tot_after is not None:
+                    probes.inc('totals_compared_around_readonly_call')
+                    tol_ = 1e-12 if (memoryless and not sim._iterative()) else max(sim.tol, 1e-9)
+                    # approximated partials: a check may make a component recompute the (relative) steps it had
+                    # cached, after which its FD values differ within the method's round-off for those steps
+                    ab_ = 2.0 * sim.approx_abs_bound() if any(c.get('approx') for c in sim.world['comps']) else 0.0
+                    for k_, v0 in tot_before.items():
+                        v1 = tot_after.get(k_)
+                        if v1 is not None and v1.shape == v0.shape and ab_ > 0.0 and np.all(np.isfinite(v1)) and \
+                                float(np.abs(v1 - v0).max()) <= ab_:
+                            continue
+                        if v1 is None or v1.shape != v0.shape or \
+                                relerr(v1, v0, floor=1e-3 + float(np.abs(v0).max())) > tol_:
+                            viol.append({'inv': 'I-31a-derivs', 'msg': f"[{sim.name}] compute_totals {k_} before {kind}: "
+                                         f"{v0.tolist()}, after: {None if v1 is None else v1.tolist()}", 'ctx': kind})
+                            return False
         if sim.p is not None and sim.final:
             if memoryless:
                 mlog.append((kind, sim.state_bytes()))
